@@ -50,7 +50,7 @@ theorem GoodPipe_init {a : ArrS} (h : WFP a) (g : List Nat) (hne : g ≠ []) (hl
 
 theorem WFP_combineLegs {a b : ArrS} {groups : List (List Nat)} {newAxes : Option (List Int)}
     {qconjs : List (Option Int)} (h : WFP a) (hqc : ∀ v, some v ∈ qconjs → v = 1 ∨ v = -1)
-    (hb : a.combineLegs groups newAxes qconjs = some b) : WFP b := by
+    (hb : a.combineLegs groups newAxes qconjs = some b) : WFP b ∧ b.qtotal = a.qtotal := by
   unfold ArrS.combineLegs at hb
   split at hb
   · cases hb
@@ -144,31 +144,36 @@ theorem WFP_relegs {a : ArrS} (h : WFP a) (legs' : List LegS)
     show rowInRange legs' r = true ∧ blockCharge (ArrS.modsOf legs') legs' r = a.qtotal
     rw [hm, hrr, hbc]; exact h.rows_ok r hr
 
+theorem relabel_legs_aux (l : List LegS) (f : Nat → LegS → LegS) (hf : ∀ k x, (f k x).toPlain = x.toPlain) (s : Nat) :
+    ((List.range' s l.length).filterMap (fun k => (l[k - s]?).map (f k))).map LegS.toPlain = l.map LegS.toPlain ∧
+    ∀ y ∈ (List.range' s l.length).filterMap (fun k => (l[k - s]?).map (f k)), ∃ k, ∃ x ∈ l, y = f k x := by
+  induction l generalizing s with
+  | nil => simp
+  | cons x xs ih =>
+    have hrest : (List.range' (s + 1) xs.length).filterMap (fun k => ((x :: xs)[k - s]?).map (f k))
+        = (List.range' (s + 1) xs.length).filterMap (fun k => (xs[k - (s + 1)]?).map (f k)) := by
+      apply filterMap_congr_mem
+      intro c hc
+      have : s + 1 ≤ c := (List.mem_range'_1.mp hc).1
+      have e : c - s = (c - (s + 1)) + 1 := by omega
+      rw [e]; simp
+    simp only [List.length_cons, List.range'_succ, List.filterMap_cons, Nat.sub_self, List.getElem?_cons_zero,
+      Option.map_some, hrest, List.map_cons, (ih (s + 1)).1, hf]
+    refine ⟨trivial, ?_⟩
+    intro y hy
+    rcases List.mem_cons.1 hy with rfl | hy
+    · exact ⟨s, x, by simp, rfl⟩
+    · obtain ⟨k, x0, hx0, rfl⟩ := (ih (s + 1)).2 y hy
+      exact ⟨k, x0, by simp [hx0], rfl⟩
+
 theorem relabel_legs (l : List LegS) (f : Nat → LegS → LegS) (hf : ∀ k x, (f k x).toPlain = x.toPlain) :
     ((List.range l.length).filterMap (fun k => (l[k]?).map (f k))).map LegS.toPlain = l.map LegS.toPlain ∧
     ∀ y ∈ (List.range l.length).filterMap (fun k => (l[k]?).map (f k)), ∃ k, ∃ x ∈ l, y = f k x := by
-  induction l using List.reverseRecOn with
-  | nil => simp
-  | append_singleton l x ih =>
-    have hcongr : (List.range l.length).filterMap (fun k => ((l ++ [x])[k]?).map (f k))
-        = (List.range l.length).filterMap (fun k => (l[k]?).map (f k)) := by
-      apply filterMap_congr_mem
-      intro k hk
-      rw [List.getElem?_append_left (List.mem_range.1 hk)]
-    simp only [List.length_append, List.length_singleton, List.range_succ, List.filterMap_append, hcongr,
-      List.filterMap_cons, List.filterMap_nil, List.map_append]
-    have hx : (l ++ [x])[l.length]? = some x := by simp
-    simp only [hx, Option.map_some, List.map_cons, List.map_nil, ih.1, hf]
-    refine ⟨trivial, ?_⟩
-    intro y hy
-    rcases List.mem_append.1 hy with hy | hy
-    · obtain ⟨k, x0, hx0, rfl⟩ := ih.2 y hy
-      exact ⟨k, x0, by simp [hx0], rfl⟩
-    · simp only [List.mem_singleton] at hy
-      exact ⟨l.length, x, by simp, hy⟩
+  have := relabel_legs_aux l f hf 0
+  simpa [List.range_eq_range'] using this
 
 theorem WFP_sortLegcharge {a b : ArrS} {sort bunch : List Bool} (h : WFP a)
-    (hb : a.sortLegcharge sort bunch = some b) : WFP b := by
+    (hb : a.sortLegcharge sort bunch = some b) : WFP b ∧ b.qtotal = a.qtotal := by
   unfold ArrS.sortLegcharge at hb
   split at hb
   · cases hb
@@ -180,11 +185,12 @@ theorem WFP_sortLegcharge {a b : ArrS} {sort bunch : List Bool} (h : WFP a)
         intro k hk; rw [← haxes] at hk; exact List.mem_range.1 (List.mem_filter.1 hk).1
       cases hcp : a.combineWithPipes (axes.map (fun k => [k])) none
           (axes.map (fun k => Pipe.init [a.legAt k] (a.legAt k).qconj (sort.getD k false) (bunch.getD k false))) with
-      | none => simp [hcp] at hb
+      | none => rw [hcp] at hb; cases hb
       | some cp =>
-        simp only [hcp, Option.some.injEq] at hb
+        rw [hcp] at hb
+        simp only [Option.some.injEq] at hb
         subst hb
-        have hcpW : WFP cp := by
+        have hcpW' : WFP cp ∧ cp.qtotal = a.qtotal := by
           apply WFP_combineWithPipes h ?_ hcp
           intro x hx
           rw [List.zip_map, List.mem_map] at hx
@@ -199,6 +205,8 @@ theorem WFP_sortLegcharge {a b : ArrS} {sort bunch : List Bool} (h : WFP a)
             rw [legAt_eq hk']; exact sane_qconj (LegS.ok_sane (h.legs_ok _ (List.getElem_mem hk')).1)
           exact GoodPipe_init h [k] (by simp) (by intro j hj; simp only [List.mem_singleton] at hj; rw [hj]; exact hax k hk)
             _ hq _ _
+        obtain ⟨hcpW, hcpq⟩ := hcpW'
+        refine ⟨?_, hcpq⟩
         obtain ⟨hmap, hmem⟩ := relabel_legs cp.legs (fun k l => if axes.contains k then l.toPlain else l) (by
           intro k x; split <;> rfl)
         apply WFP_relegs hcpW _ hmap
